@@ -27,6 +27,13 @@ ALL = [f'C{n:02d}' for n in range(1, 21)]
 
 
 def main():
+    mdir = os.path.join(VERIF, 'harness', 'manifest.d')
+    if os.path.isdir(mdir):
+        for name in sorted(os.listdir(mdir)):
+            if name.endswith('.json'):
+                ent = json.load(open(os.path.join(mdir, name)))
+                CLAIMED[ent['property_id']] = (ent['technique'], ent['level_text'],
+                                               ent['level_note'], ent.get('design_ref', 'DESIGN.md 5'))
     checks = []
     for pid in ALL:
         if pid not in CLAIMED:
